@@ -7,5 +7,5 @@ CONSTANTS
   Kinds = @@KINDS@@
   InitClosed = @@INITCLOSED@@
 INVARIANT Inv
-VIEW MCView
+PROPERTY EventuallyAllClosed
 CHECK_DEADLOCK FALSE
